@@ -87,6 +87,39 @@ def solArgsBatch (gravityId methodName : Bytes) (amounts : List Nat) (destinatio
   [.bytes32 gravityId, .bytes32 methodName, .uintArr amounts, .addrArr destinations, .uintArr fees,
    .uint batchNonce, .address tokenContract, .uint batchTimeout]
 
+/-- A contract (logic) call as `ContractCallTx.GetCheckpoint` sees it. -/
+structure CallView where
+  transferAmounts : List Nat
+  transferTokens : List Bytes
+  feeAmounts : List Nat
+  feeTokens : List Bytes
+  logicContract : Bytes
+  payload : Bytes
+  timeout : Nat
+  invalidationScope : Bytes
+  invalidationNonce : Nat
+  deriving Repr, BEq
+
+/-- `var invalidationId [32]byte; copy(invalidationId[:], c.InvalidationScope[:])`: the first 32 bytes,
+    right padded with zeros (what Solidity's `bytes32("…")` and the orchestrator produce). -/
+def scope32 (s : Bytes) : Bytes := padRight (s.take 32) 32
+
+def goArgsCall (gravityId : Bytes) (c : CallView) : List AbiVal :=
+  [.bytes32 gravityId, .bytes32 (padRight (strBytes "logicCall") 32), .uintArr c.transferAmounts,
+   .addrArr c.transferTokens, .uintArr c.feeAmounts, .addrArr c.feeTokens, .address c.logicContract,
+   .dynBytes c.payload, .uint c.timeout, .bytes32 (scope32 c.invalidationScope), .uint c.invalidationNonce]
+
+/-- Arguments `submitLogicCall` encodes in Hub2.sol. -/
+def solArgsCall (gravityId methodName : Bytes) (transferAmounts : List Nat) (transferTokenContracts : List Bytes)
+    (feeAmounts : List Nat) (feeTokenContracts : List Bytes) (logicContractAddress payload : Bytes)
+    (timeOut : Nat) (invalidationId : Bytes) (invalidationNonce : Nat) : List AbiVal :=
+  [.bytes32 gravityId, .bytes32 methodName, .uintArr transferAmounts, .addrArr transferTokenContracts,
+   .uintArr feeAmounts, .addrArr feeTokenContracts, .address logicContractAddress, .dynBytes payload,
+   .uint timeOut, .bytes32 invalidationId, .uint invalidationNonce]
+
+def checkpointCall (gravityId : String) (c : CallView) : Option Bytes :=
+  (fixed32 gravityId).map fun g => keccak256 (abiEncode (goArgsCall g c))
+
 def checkpointSignerSet (gravityId : String) (nonce : Nat) (members : List Signer) : Option Bytes :=
   (fixed32 gravityId).map fun g => keccak256 (abiEncode (goArgsSignerSet g nonce members))
 
